@@ -16,14 +16,14 @@ using namespace verif;
 
 // ---- S7: the estimator's random bits
 namespace{
-struct BitStream{ uint64_t seed; int mode; int runmax; Rng rng; long draws; int run_left; int run_bit; bool active;
-  BitStream():seed(1),mode(0),runmax(0),rng(1),draws(0),run_left(0),run_bit(0),active(false){}
-  void start(uint64_t s,int m,int rm){ seed=s; mode=m; runmax=rm; rng.reseed(s); draws=0; run_left=0; run_bit=0; active=true; }
+struct BitStream{ uint64_t seed; int mode; int runmax; Rng rng; long draws; long forced; int run_left; int run_bit; bool active;
+  BitStream():seed(1),mode(0),runmax(0),rng(1),draws(0),forced(0),run_left(0),run_bit(0),active(false){}
+  void start(uint64_t s,int m,int rm){ seed=s; mode=m; runmax=rm; rng.reseed(s); draws=0; forced=0; run_left=0; run_bit=0; active=true; }
   int next(){
     draws++;
     if(mode==1){
       // runs of identical bits of bounded length (forces the resample loops); random afterwards
-      if(run_left>0){ run_left--; return run_bit; }
+      if(run_left>0){ run_left--; forced++; return run_bit; }
       if(draws<4000 && rng.chance(0.3)){ run_left=(int)rng.below((uint64_t)runmax+1); run_bit=(int)rng.below(2); return run_bit; }
     }
     return (int)rng.below(2);
@@ -112,7 +112,7 @@ double fro(const Mat& A){ double s=0; for(unsigned i=0;i<A.d;i++) for(unsigned j
 struct Call{ int kind; unsigned n; Mat A; uint64_t bitseed; int bitmode,runmax; // kind 0: matrix_exponential
              std::vector<double> vcomp,acomp; double s;                              // kind 1: a.UTransform(v, i*s)
              std::vector<double> vdelta; };                                          // kind 2: the same, twice: v is updated in place (v += delta) between the calls
-struct CallResult{ int rc; std::string what; Mat X; std::vector<double> out; long draws; };
+struct CallResult{ int rc; std::string what; Mat X; std::vector<double> out; long draws,forced; };
 
 // perform one call on the calling thread with its own bit stream
 void perform(const Call& c,CallResult& r){
@@ -139,7 +139,7 @@ void perform(const Call& c,CallResult& r){
     });
     r.what=g_what;
   }
-  r.draws=bs.draws; tl_bits=0;
+  r.draws=bs.draws; r.forced=bs.forced; tl_bits=0;
 }
 
 struct ExpEngine: Engine{
@@ -214,6 +214,8 @@ struct ExpEngine: Engine{
         bool diag=true; for(unsigned ii=0;ii<c.n;ii++) for(unsigned jj=0;jj<c.n;jj++) if(ii!=jj&&Aexp.m[ii][jj]!=cplx(0,0)) diag=false;
         char key[64]; snprintf(key,sizeof key,"probe_norm_band_%d",band); ctr.add(key); if(c.n==2) ctr.add("probe_size_2"); if(diag) ctr.add("probe_diagonal_input");
         if(c.bitmode==1) ctr.add("fault_identical_bit_runs_configured");
+        ctr.add("fault_identical_bits_fired",res.forced); ctr.add("estimator_bits_drawn",res.draws);
+        { char ck[48]; snprintf(ck,sizeof ck,"cover_class_%d",cls); ctr.add(ck); snprintf(ck,sizeof ck,"cover_n_%u",c.n); ctr.add(ck); ctr.add("cover_kind_"+kind); }
         long tag[5]={(long)c.kind,(long)c.n,cls,band,prev_n}; shape=fnv1a(tag,sizeof tag,shape); prev_n=(int)c.n;
         if(!diag) nontrivial=true;
         tr.ev("op#%zu %s n=%u cls=%d norm1=%.6g band=%d draws=%ld rc=%d",i,kind.c_str(),c.n,cls,n1,band,res.draws,res.rc);
